@@ -171,6 +171,7 @@ pub fn padded(name: &Vec<u8>, n: usize) -> (r: Vec<u8>)
 }
 
 //@extract fn bigtools/src/bbi/bbiwrite.rs write_chrom_tree
+//@rule R16
 //@rule R3 min=8
 //@rule R8
 //@rule R12u64 min=0
